@@ -40,6 +40,8 @@ fn gen_inv_expr(t: &mut Tape) -> Expr {
                     Item::Ch('/'),
                     Item::Ch('A'),
                     Item::Range('a', 'b'),
+                    Item::Range('b', 'a'),
+                    Item::Range('é', 'a'),
                     Item::Ch('é'),
                     Item::Ch('.'),
                 ])],
